@@ -319,6 +319,37 @@ func runC19(c *Ctx) {
 	id4, _ := resource.NewIdentity("Patient", "A", "1") // ids are case-sensitive
 	for _, id := range []*resource.Identity{id1, id2, id3, id0, id4} {
 		pool = append(pool, reference.TypedFromIdentity(id), reference.Weak(id.Type(), id.PreferRelativeVersionedURIString()), reference.Weak(id.Type(), "http://x/fhir/"+id.PreferRelativeVersionedURIString()))
+		// the same identity under a second service base: identity comparison looks at type / id / version only
+		pool = append(pool, reference.Weak(id.Type(), "https://other.example/base/r4/"+id.PreferRelativeVersionedURIString()))
+	}
+	// parsing has no memory: a URI without a type of its own, read under different explicit types and bare, in sequence
+	for _, uri := range []string{"urn:uuid:53fefa32-fcbb-4ff8-8a92-55ee120877b7", "urn:oid:1.2.840.113619", "http://example.org/fhir/ValueSet/vs", "urn:uuid:00000000-0000-0000-0000-000000000000"} {
+		mk := func(t string) *dtpb.Reference {
+			r := &dtpb.Reference{Reference: &dtpb.Reference_Uri{Uri: fhir.String(uri)}}
+			if t != "" {
+				r.Type = fhir.URI(t)
+			}
+			return r
+		}
+		lit := func(t string) (*reference.LiteralInfo, string) {
+			var l *reference.LiteralInfo
+			var err error
+			_, pan, _ := safeErr(func() error { l, err = reference.LiteralInfoOf(mk(t)); return nil })
+			return l, litOut(l, err, pan)
+		}
+		held, bare0 := lit("")
+		_, pat0 := lit("Patient")
+		_, obs0 := lit("Observation")
+		_, bare1 := lit("")
+		_, pat1 := lit("Patient")
+		_, obs1 := lit("Observation")
+		c.Observe("literal history "+uri, true)
+		c.Law(bare0 == bare1 && pat0 == pat1 && obs0 == obs1, "C19/history-dependent", "parsing a reference gives the same information whatever was parsed before", uri+" bare / as Patient / as Observation, twice",
+			fmt.Sprintf("bare %s then %s; Patient %s then %s; Observation %s then %s", bare0, bare1, pat0, pat1, obs0, obs1))
+		c.Law(strings.HasPrefix(pat0, "err") == strings.HasPrefix(obs0, "err"), "C19/history-dependent", "an explicit type is accepted or refused alike for Patient and Observation on a URI that names no type", uri, "Patient: "+pat0+" Observation: "+obs0)
+		if held != nil {
+			c.Law(litOut(held, nil, false) == bare0, "C19/history-dependent", "information handed out by an earlier parse does not change under its holder", uri, bare0+" became "+litOut(held, nil, false))
+		}
 	}
 	withDisplay := proto.Clone(pool[0]).(*dtpb.Reference)
 	withDisplay.Display = fhir.String("d")
